@@ -10,6 +10,17 @@ from fractions import Fraction
 import numpy as np
 
 from . import universe as U
+from . import core as _core
+
+
+def guarded(fn, seconds=20.0):
+    """core.guarded for the assembly properties: library exceptions are observations (the event's `err`), but an expired
+    per-call alarm is NOT - on a slow or overloaded machine it says nothing about the property.  The alarm is generous
+    (at least 10 minutes; normal calls take well under a second) and its expiry is a machinery failure (exit 2)."""
+    res, err = _core.guarded(fn, max(10.0 * seconds, 600.0))
+    if err == 'Timeout':
+        raise _core.MachineryError('a library call did not return within the (generous) per-call alarm')
+    return res, err
 
 # ------------------------------------------------------------------------------------------ elements
 
